@@ -6,6 +6,8 @@ import (
 	"fmt"
 	"go/token"
 	"go/types"
+	"sort"
+	"strings"
 
 	"golang.org/x/tools/go/ssa"
 )
@@ -13,11 +15,13 @@ import (
 func init() { register("C12", true, checkC12) }
 
 func checkC12(p *Prog, r *Report) {
-	r.Explain("SKIP: in the scan loop of ScanTiffHeader every advance is a constant Discard(k); for k > 1 the dominating byte tests on the peeked window must exclude a TIFF signature starting at offsets 1..k-1 (cube intersection with the signature table shifted by the offset is empty); offset 0 is excluded by BinaryOrder(window) == UnknownEndian, and BinaryOrder's recognisers are checked against the table (BO-SYM). The scan may not call any other consuming primitive. ACC: the constant discarded equals the constant added to the offset counter that becomes TiffHeaderOffset, on every path. FOUND: on the found path nothing consumes after the last Peek, the header comes from the window's own TIFF header (HDR) and a failed Peek is mapped to meta.ErrNoExif. LOOPX: every iteration of the scan loop discards >= 1 byte or returns.")
+	r.Explain("SKIP: in the scan loop of ScanTiffHeader every advance is a constant Discard(k); for k > 1 the dominating byte tests on the peeked window must exclude a TIFF signature starting at offsets 1..k-1 (cube intersection with the signature table shifted by the offset is empty); offset 0 is excluded by BinaryOrder(window) == UnknownEndian, and BinaryOrder's recognisers are checked against the table (BO-SYM). The scan may not call any other consuming primitive. ACC: the constant discarded equals the constant added to the offset counter that becomes TiffHeaderOffset, on every path. FOUND: on the found path nothing consumes after the last Peek, the header comes from the window's own TIFF header (HDR) and a failed Peek is mapped to meta.ErrNoExif. LOOPX: every iteration of the scan loop discards >= 1 byte or returns. SEARCHALL: every reader handed to ScanTiffHeader traces (through interface conversions, bufio wrappers, pooled readers Reset) to the caller own stream, never to an io.LimitReader / LimitedReader / SectionReader whose limit would cut the search off.")
 	r.Trusted("bufio.Reader.Peek(n) returns n bytes or an error; Discard(k) after a successful Peek(n>=k) skips exactly k bytes", "at least 28 bytes follow the signature (granted by the property)")
 	ruleTiffScan(p, r)
 	ruleBOSym(p, r)
 	ruleHDR(p, r, "tiff")
+	ruleSearchAll(p, r)
+	r.Floor("SEARCHALL", 3)
 	r.Floor("SKIP", 2)
 	r.Floor("ACC", 2)
 	r.Floor("FOUND", 2)
@@ -359,6 +363,7 @@ func ruleBOSym(p *Prog, r *Report) {
 		r.Undecided("BO-SYM", "meta/utils.BinaryOrder", "-", "no declaration")
 		return
 	}
+	ruleSig4(p, r, fobj)
 	env := &predEnv{pkg: pk, wins: map[types.Object]window{}, strs: map[types.Object]string{}, p: p}
 	env.wins[pk.TypesInfo.Defs[fd.Type.Params.List[0].Names[0]]] = window{off: 0, length: -1, minLen: 4}
 	rules, deflt, err := decisionList(p, env, pk, fd)
@@ -471,4 +476,155 @@ func constantInt64(c *types.Const) (int64, bool) {
 	var k int64
 	_, err := fmt.Sscan(s, &k)
 	return k, err == nil
+}
+
+// ruleSig4 (reported under BO-SYM): BinaryOrder and the library functions it hands its buffer to look at bytes 0..3
+// only. A test that also reads what follows the signature (the first-directory offset, say) makes the order — and
+// with it whether a TIFF header is recognised at all — depend on data that is not part of the signature, and the
+// first byte of that offset is its low byte in one order and its high byte in the other.
+func ruleSig4(p *Prog, r *Report, root *ssa.Function) {
+	key := "meta/utils.BinaryOrder | reads only the four signature bytes"
+	if len(root.Params) != 1 {
+		r.Undecided("BO-SYM", key, p.posStr(root.Pos()), "unexpected signature")
+		return
+	}
+	read := map[int64]bool{}
+	unb := bufReadSet(p, root, root.Params[0], bufWin{0, -1}, read, map[string]bool{}, 0)
+	var extra []string
+	for k := range read {
+		if k > 3 {
+			extra = append(extra, fmt.Sprint(k))
+		}
+	}
+	sort.Strings(extra)
+	switch {
+	case unb != "":
+		r.Bad("BO-SYM", key, p.posStr(root.Pos()), "the signature test looks past the four signature bytes ("+unb+"): whether a header is recognised, and with which order, then depends on what follows the signature")
+	case len(extra) > 0:
+		r.Bad("BO-SYM", key, p.posStr(root.Pos()), "the signature test reads byte(s) "+strings.Join(extra, ", ")+" behind the four signature bytes: whether a header is recognised, and with which order, then depends on what follows the signature")
+	default:
+		r.OK("BO-SYM", key, p.posStr(root.Pos()), fmt.Sprintf("%d positions read, all within bytes 0..3", len(read)))
+	}
+	// and it is a function of those bytes alone: no package-level state that anything outside the initialiser writes
+	key2 := "meta/utils.BinaryOrder | depends on its argument only"
+	bad := ""
+	seen := map[*ssa.Function]bool{}
+	var visit func(f *ssa.Function, d int)
+	visit = func(f *ssa.Function, d int) {
+		if seen[f] || d > 6 || bad != "" {
+			return
+		}
+		seen[f] = true
+		eachInstr(f, func(_ *ssa.BasicBlock, _ int, in ssa.Instruction) {
+			var ops []*ssa.Value
+			for _, o := range in.Operands(ops) {
+				if g, ok := (*o).(*ssa.Global); ok && g.Pkg != nil && isRepoPath(g.Pkg.Pkg.Path()) {
+					if !p.Tables().Immutable(g) {
+						bad = "it reads " + globalName(g) + " (in " + fnName(f) + "), which is written — or whose elements can be written — outside the package initialiser"
+					}
+				}
+			}
+			if ci, ok := in.(ssa.CallInstruction); ok {
+				if sc := ci.Common().StaticCallee(); sc != nil && isRepoFn(sc) && len(sc.Blocks) > 0 {
+					visit(sc, d+1)
+				}
+			}
+		})
+	}
+	visit(root, 0)
+	if bad != "" {
+		r.Bad("BO-SYM", key2, p.posStr(root.Pos()), bad+": the same four bytes can then be recognised at one time and not at another")
+	} else {
+		r.OK("BO-SYM", key2, p.posStr(root.Pos()), fmt.Sprintf("%d functions, no mutable package-level state read", len(seen)))
+	}
+}
+
+// ---- SEARCHALL: the header search sees the whole stream ---------------------------------------------------------
+//
+// "The first TIFF signature anywhere in the stream is found" needs the reader that ScanTiffHeader is given to deliver
+// the stream itself. Every reader argument of tiff.ScanTiffHeader in the library is traced through interface
+// conversions, bufio wrappers and pooled readers' Reset: it must end at a parameter of the calling function (the
+// caller's stream) — never at an io.LimitReader / io.LimitedReader / io.SectionReader, whose limit counts from the
+// start of the stream and silently cuts the search off.
+func ruleSearchAll(p *Prog, r *Report) {
+	scan := p.Func("tiff", "", "ScanTiffHeader")
+	if scan == nil {
+		r.Undecided("SEARCHALL", "tiff.ScanTiffHeader", "-", "unresolved anchor")
+		return
+	}
+	var limited func(f *ssa.Function, v ssa.Value, d int, seen map[ssa.Value]bool) string
+	limited = func(f *ssa.Function, v ssa.Value, d int, seen map[ssa.Value]bool) string {
+		if v == nil || seen[v] || d > 10 {
+			return ""
+		}
+		seen[v] = true
+		switch x := v.(type) {
+		case *ssa.MakeInterface:
+			return limited(f, x.X, d+1, seen)
+		case *ssa.ChangeInterface:
+			return limited(f, x.X, d+1, seen)
+		case *ssa.TypeAssert:
+			return limited(f, x.X, d+1, seen)
+		case *ssa.Extract:
+			return limited(f, x.Tuple, d+1, seen)
+		case *ssa.Phi:
+			for _, e := range x.Edges {
+				if w := limited(f, e, d+1, seen); w != "" {
+					return w
+				}
+			}
+		case *ssa.Alloc:
+			if n := namedOfPtr(x.Type()); n != nil && n.Obj().Pkg() != nil && n.Obj().Pkg().Path() == "io" && (n.Obj().Name() == "LimitedReader" || n.Obj().Name() == "SectionReader") {
+				return "an io." + n.Obj().Name()
+			}
+		case *ssa.Call:
+			sc := x.Call.StaticCallee()
+			if sc != nil {
+				switch sc.String() {
+				case "io.LimitReader", "io.NewSectionReader":
+					return "the result of " + sc.String()
+				case "bufio.NewReader", "bufio.NewReaderSize":
+					return limited(f, x.Call.Args[0], d+1, seen)
+				}
+			}
+			// a pooled reader: what it was Reset to
+			for _, rf := range refs(x) {
+				_ = rf
+			}
+		}
+		// a *bufio.Reader obtained elsewhere (pool): look at the Reset calls on it in this function
+		if pt, ok := v.Type().Underlying().(*types.Pointer); ok {
+			if n, ok := pt.Elem().(*types.Named); ok && n.Obj().Name() == "Reader" && n.Obj().Pkg() != nil && n.Obj().Pkg().Path() == "bufio" {
+				why := ""
+				eachCall(f, func(site ssa.CallInstruction) {
+					c := site.Common()
+					if isCallTo(c, "(*bufio.Reader).Reset") && len(c.Args) == 2 && c.Args[0] == v && why == "" {
+						why = limited(f, c.Args[1], d+1, seen)
+					}
+				})
+				return why
+			}
+		}
+		return ""
+	}
+	n := 0
+	for _, f := range p.AllLibFns() {
+		eachCall(f, func(site ssa.CallInstruction) {
+			c := site.Common()
+			if c.StaticCallee() != scan || len(c.Args) < 1 {
+				return
+			}
+			n++
+			key := fnName(f) + " | reader handed to tiff.ScanTiffHeader"
+			at := p.posStr(instrPos(site))
+			if w := limited(f, c.Args[0], 0, map[ssa.Value]bool{}); w != "" {
+				r.Bad("SEARCHALL", key, at, "the search reads through "+w+": a signature beyond that limit — counted from the start of the stream, not from the header — is never found")
+			} else {
+				r.OK("SEARCHALL", key, at, "the search reads the caller's stream, not a length-limited view of it")
+			}
+		})
+	}
+	if n == 0 {
+		r.Undecided("SEARCHALL", "tiff.ScanTiffHeader | callers", "-", "no call found")
+	}
 }
